@@ -117,12 +117,28 @@ def reachableWM (entries : List RuleEntry) : WM :=
 
 def keysSubset (a b : List (Snap × Snap)) : Bool := a.all (fun (k, _) => (snapGet k b).isSome)
 
-/-- NewKnowledgeBaseInstance: succeeds iff every node registered in the working memory is on the
-    clone table, i.e. reachable from some rule entry -/
+def hasKey (k : Snap) (l : List (Snap × Snap)) : Bool := (snapGet k l).isSome
+
+/-- the part of a working memory whose nodes are reachable from the given entries: what `Clone` and
+    `MakeCatalog` keep (unreachable nodes — left behind by a rejected resource or an overwritten
+    tomb-stone — are garbage) -/
+def WM.restrict (w : WM) (entries : List RuleEntry) : WM :=
+  let r := reachableWM entries
+  { exprs := w.exprs.filter (fun (k, _) => hasKey k r.exprs)
+    atoms := w.atoms.filter (fun (k, _) => hasKey k r.atoms)
+    vars := w.vars.filter (fun (k, _) => hasKey k r.vars)
+    exprIdx := (w.exprIdx.filter (fun (v, _) => hasKey v r.vars)).map (fun (v, es) => (v, es.filter (fun k => hasKey k r.exprs)))
+    atomIdx := (w.atomIdx.filter (fun (v, _) => hasKey v r.vars)).map (fun (v, as) => (v, as.filter (fun k => hasKey k r.atoms))) }
+
+/-- NewKnowledgeBaseInstance: every rule entry (removed ones included, with their flag) and the reachable
+    part of the working memory -/
 def KB.instantiate (kb : KB) : Option Instance :=
-  let r := reachableWM kb.entries
-  if keysSubset kb.wm.exprs r.exprs && keysSubset kb.wm.atoms r.atoms && keysSubset kb.wm.vars r.vars then
-    some { entries := kb.entries, wm := kb.wm }
-  else none
+  some { entries := kb.entries, wm := kb.wm.restrict kb.entries }
+
+/-- StoreKnowledgeBaseToWriter followed by LoadKnowledgeBaseFromReader, at the level of knowledge bases:
+    removed entries are not stored; the working memory is restricted to what the stored entries reach -/
+def KB.storeLoad (kb : KB) : KB :=
+  let live := kb.entries.filter (fun e => !e.deleted)
+  { kb with entries := live.map (fun e => { e with key := e.rule.name }), wm := kb.wm.restrict live }
 
 end Grule
